@@ -1177,7 +1177,7 @@ def make_snapshot_cases(run, pool, snaps):
             comps, env, filters, flags = gen_config(rng, snap)
             cases.append(("config", (snap, comps, env, filters, flags, [])))
         # 3. random removal sets (up to 40 paths) x random configuration
-        for _ in range(14 if quick else 30):
+        for _ in range(14 if quick else 24):
             comps, env, filters, flags = gen_config(rng, snap, plain=rng.random() < 0.3)
             pool_paths = rem
             if snap.kind == "x86+linux":
@@ -1221,7 +1221,7 @@ def class_of(p):
 def class_cases(run, pool, snaps):
     """Systematic single removals of attribute files under sys/devices/system (x86: the cpuid dump): one
     light case per (snapshot x file-name class) - the instance rotates with the seed - in the quick tier,
-    up to 4 instances per class in the thorough tier."""
+    up to 3 instances per class in the thorough tier."""
     quick = run.tier == "quick"
     cases = []
     nclasses = 0
@@ -1237,7 +1237,7 @@ def class_cases(run, pool, snaps):
         for cls in sorted(classes):
             inst = classes[cls]
             nclasses += 1
-            k = 1 if quick else min(len(inst), 4)
+            k = 1 if quick else min(len(inst), 3)
             start = (run.seed * 7 + len(cls)) % len(inst)
             step = max(1, len(inst) // k)
             for j in range(k):
@@ -1717,7 +1717,7 @@ def pair_cases(run, pool, snaps):
             variants.append([pre + "sys/devices/system/cpu/cpu%d/cache" % c for c in cpus])
             variants.append([pre + "sys/devices/system/cpu/cpu%d/topology" % cpus[0]])
             variants.append([pre + "sys/devices/system/node"])
-            for _ in range(4 if quick else 40):
+            for _ in range(4 if quick else 20):
                 variants.append(G.random_set(rng, sysrem, 20))
             if not quick:
                 classes = {}
